@@ -70,6 +70,53 @@ def pick_common(rng, values, pool, mode):
     return rng.choice(present) if present else rng.choice(list(pool))
 
 
+def gen_lopsided(rng):
+    """Lopsided dense columns: N in 30..120 rows, 2-4 one-axis dimensions with extents 2-4, each with one frequent
+    category (60-90 % of the rows), a filler category and rare categories of 1-3 rows; the LAST row of every rare
+    category of dimension i is, with probability 0.7, in the frequent category of dimension i+1 (a short running
+    row-id set whose last element belongs to a much longer index entry: galloping / bisecting intersections).
+    The common is the filler, a rare category, a value absent from the data (= extent) or, rarely, the frequent
+    category, so the long entry is usually stored.  -> (N, [(column list, common, extent incl. the common)])"""
+    N = rng.randint(30, 120)
+    nd = rng.choice([2, 2, 3, 3, 4])
+    out, force = [], set()
+    for _ in range(nd):
+        e = rng.randint(2, 4)
+        cats = list(range(e))
+        rng.shuffle(cats)
+        freq, rest = cats[0], cats[1:]
+        filler = rest[0]
+        rares = rest[1:] if len(rest) > 1 else ([filler] if rng.random() < 0.5 else [])
+        p = rng.uniform(0.6, 0.9)
+        col = [freq if rng.random() < p else filler for _ in range(N)]
+        free = [r for r in range(N) if r not in force]
+        rng.shuffle(free)
+        nxt = set()
+        for v in rares:
+            if v == filler:                       # extent 2: the "filler" itself is rare
+                col = [freq] * N
+            k = rng.randint(1, 3)
+            rows, free = free[:k], free[k:]
+            for r in rows:
+                col[r] = v
+            if rows and rng.random() < 0.7:
+                nxt.add(max(rows))
+        for r in force:                           # last rows of the previous dimension's rare categories
+            col[r] = freq
+        mode = rng.random()
+        if mode < 0.4:
+            common = filler
+        elif mode < 0.65 and rares:
+            common = rares[0]
+        elif mode < 0.85:
+            common = e                            # absent from the data
+        else:
+            common = freq
+        out.append((col, common, max(e, common + 1)))
+        force = nxt
+    return N, out
+
+
 # --------------------------------------------------------------------------- literals
 def dim1_lit(idx):
     """A real ONE-axis iindex as the Coq literal (entries in dict order, common)."""
